@@ -473,7 +473,13 @@ IThis == /\ I.i = "this"
                  ELSE frames' = Adv(Append(Stk, r.v)) /\ UNCHANGED <<heap, exc>>
          /\ UNCHANGED <<prog, syms, depth, out, tr, res, nact>>
 SetProp(objv, p, v0) ==         \* [f, h, v]
-  IF objv.t # "ref" \/ heap[objv.id].k # "obj" THEN [f |-> "prop"]
+  \* the 首项 / 末项 setters of a non-empty list store a copy, like an element assignment
+  IF objv.t = "ref" /\ heap[objv.id].k = "list" /\ p \in {"@first", "@last"} THEN
+       (IF heap[objv.id].items = <<>> THEN [f |-> "index"]
+        ELSE LET d == DupV(v0, heap)
+                 q == IF p = "@first" THEN 1 ELSE Len(heap[objv.id].items)
+             IN [f |-> "", h |-> [d.h EXCEPT ![objv.id].items[q] = d.v], v |-> d.v])
+  ELSE IF objv.t # "ref" \/ heap[objv.id].k # "obj" THEN [f |-> "prop"]
   ELSE LET q == IndexOf(heap[objv.id].keys, p, 1)
            d == DupV(v0, heap)
        IN IF q = 0 THEN [f |-> "prop"] ELSE [f |-> "", h |-> [d.h EXCEPT ![objv.id].vals[q] = d.v], v |-> d.v]
